@@ -45,8 +45,11 @@ THEOREMS = [
     "AiuVerif.C20.hull_spec",
     "AiuVerif.C20.hull_spec_by_sequence",
     "AiuVerif.C20.non_members_unchanged",
+    "AiuVerif.C20.non_members_unchanged_by_sequence",
     "AiuVerif.C20.summarize_total",
+    "AiuVerif.C20.summarize_raises",
     "AiuVerif.C20.key_collision_merges",
+    "AiuVerif.C20.key_zero_not_summarized",
 ]
 RULE = ("slice streams for collection -> barrier -> apply: exhaustive streams of up to 3 (quick) / 4 (thorough) "
         "SenRdma slices over 2 sequence numbers x 2 jobs x 3 start/end grid points x 2 peers; random structured streams "
@@ -316,8 +319,21 @@ def random_case(rng, flavour):
     return {"events": evs}
 
 
+# the two Lean witnesses (Props/C20.lean: collisionWitness, zeroWitness), replayed on the real code on every run
+WITNESSES = {
+    "key_collision_merges": {"events": [mk(1, "SenRdmaSend_23", 1, 0, 1, 5), mk(2, "SenRdmaSend_3", 12, 10, 1, 6)]},
+    "key_zero_not_summarized": {"events": [mk(1, "SenRdmaSend_0 a", 0, 0, 1, 5), mk(2, "SenRdmaSend_0 b", 0, 10, 1, 6)]},
+}
+WITNESS_EXPECT = {        # what the Lean theorems say the model does
+    "key_collision_merges": "ok 0 m2,SenRdmaSend_,0,11,5:6",
+    "key_zero_not_summarized": "ok 0 p1;p2",
+}
+
+
 def gen_cases(ctx: Ctx):
     maxn = 3 if ctx.quick() else 4
+    for name, c in WITNESSES.items():
+        yield "witness:" + name, c
     for c in grid_cases(maxn):
         yield "grid", c
     ctx.extra["exhaustive_grid"] = f"all streams of <= {maxn} SenRdma slices over 2 sequence numbers x 2 jobs x 3 intervals x 2 peers"
@@ -474,6 +490,13 @@ def run(ctx: Ctx):
             ctx.count("real_" + r["err"])
         if any("EmptyName" == e.get("name") for e in r["out"]):
             ctx.count("name_quirk_EmptyName")
+        if kind.startswith("witness:"):
+            w = kind.split(":", 1)[1]
+            got = canon_real(r)
+            ctx.extra.setdefault("witnesses_on_real_code", {})[w] = {
+                "real": got, "lean_theorem_says": WITNESS_EXPECT[w], "real_code_agrees_with_witness": got == WITNESS_EXPECT[w]}
+            if got != WITNESS_EXPECT[w]:
+                ctx.disagree(f"Lean witness {w} no longer describes the real code", case, WITNESS_EXPECT[w], got)
         ln = line(case)
         ctx.case_done(case, key=ln, nontrivial=multi > 0)
         cases.append((case, ln))
